@@ -251,8 +251,9 @@ let drv_cfg () =
     | "case" :: _ -> print_endline (String.concat " " toks); stmts := []
     | "cfguniverse" :: u -> universe := List.map str_tok u
     | "cfgstmts" :: l -> stmts := List.map parse_stmt l
-    | "cfglua" :: _ | ["cfgnone"] ->
-        (match klunok_load !stmts with
+    | "cfglua" :: _ | ["cfgnone"] | ["cfgstatic"] ->
+        (* cfgstatic: the table translated from src/config-static.c (the build without Lua) *)
+        (match (if toks = ["cfgstatic"] then Some static_config else klunok_load !stmts) with
          | None -> print_endline "cfg error"
          | Some c ->
              let set name l =
